@@ -646,3 +646,7 @@ package rlwe
 //@ decodes VectorQP.UnmarshalBinary
 //@   property C08
 //
+
+//@ afunc Evaluator.GadgetProduct
+//@   trusted opaque at the abstract level (the gadget product; its digit arithmetic is under the contracts of C02): writes the output ciphertext only
+//@   assigns ct
